@@ -1,0 +1,21 @@
+//go:build verif
+// +build verif
+
+package remote
+
+import (
+	proxyv1alpha1 "github.com/kubewharf/kubegateway/pkg/apis/proxy/v1alpha1"
+)
+
+// VerifReconcileOnce runs one allocate round trip of a Reconcile synchronously
+// (what the 2s ticker does). Verification-only hook.
+func VerifReconcileOnce(r Reconcile) {
+	if rr, ok := r.(*reconcile); ok {
+		rr.reconcile()
+	}
+}
+
+// VerifNewAcquireResult builds an AcquireResult as the count-strategy worker does.
+func VerifNewAcquireResult(req *proxyv1alpha1.RateLimitAcquireRequest, res *proxyv1alpha1.RateLimitAcquireResult, requestTime int64) *AcquireResult {
+	return &AcquireResult{request: req, result: res, requestTime: requestTime}
+}
